@@ -134,6 +134,7 @@ def check(prog: Program, run: Run) -> None:
     from . import c01
     common.run_as(run, "C01.R1", "C04.R6", lambda r: c01._pairing(prog, r))
     terminator_in_value(prog, run, "C04.R3")
+    float32_range(prog, run, "C04.R3")
     # a misaligned emplace_bytes call is reported as RuntimeError: a foreign exception
     common.run_as(run, "C02.R3", "C04.R1", lambda r: c02._emplace_alignment(prog, r))
     _required_unknown(prog, run)
@@ -226,6 +227,43 @@ def _escape(prog: Program, run: Run) -> None:
                               f"`{ast.unparse(r)}` reads the position of another key", g.loc)
     # data / mask width agreement
     _mask_width(prog, run)
+
+
+def float32_range(prog: Program, run: Run, R: str = "C04.R3") -> None:
+    """A_FLOAT32: a finite value beyond the 32-bit range must be rejected before it is packed
+    (one bitstruct backend turns it into infinity silently, the other raises OverflowError).
+    Accepted forms: a `struct.pack('f' ...)` probe whose OverflowError handler reports
+    EncodeError, or a comparison of the magnitude with the largest float32."""
+    from . import atomic
+    f = prog.func("EncodeState.emplace_atomic_value")
+    C = "EncodeState.emplace_atomic_value"
+    body = atomic.type_branches(f).get("else") or []
+    ok = False
+    for x in [y for st in body for y in ast.walk(st)]:
+        if isinstance(x, ast.Try):
+            probes = any(isinstance(c, ast.Call) and call_name(c) == "pack" and c.args and
+                         isinstance(c.args[0], ast.Constant) and "f" in str(c.args[0].value)
+                         for b_ in x.body for c in ast.walk(b_))
+            for h in x.handlers:
+                names = [ast.unparse(e).split(".")[-1] for e in (
+                    h.type.elts if isinstance(h.type, ast.Tuple) else [h.type])] if h.type else []
+                if probes and "OverflowError" in names and any(
+                        isinstance(c, ast.Call) and call_name(c) == "odxraise" and
+                        "EncodeError" in ast.unparse(c) for b_ in h.body for c in ast.walk(b_)):
+                    ok = True
+        if isinstance(x, ast.If) and any(isinstance(c, ast.Constant) and isinstance(
+                c.value, float) and 3.4e38 <= abs(c.value) <= 3.41e38 for c in ast.walk(x.test)) \
+                and any(isinstance(c, ast.Call) and call_name(c) == "odxraise" and
+                        "EncodeError" in ast.unparse(c) for b_ in x.body for c in ast.walk(b_)):
+            ok = True
+    if ok:
+        run.ok(R, C, "A_FLOAT32: values beyond the 32-bit range are rejected with EncodeError "
+               "before packing", f.loc)
+    else:
+        run.violation(R, C, "float32-range-unchecked",
+                      "a finite value beyond the float32 range is handed to the bit packer "
+                      "unchecked: it is emitted as infinity (C backend) or leaves as "
+                      "OverflowError (Python backend) instead of an EncodeError", f.loc)
 
 
 def terminator_in_value(prog: Program, run: Run, R: str = "C04.R3") -> None:
@@ -438,7 +476,8 @@ def _representability(prog: Program, run: Run) -> None:
     C = "EncodeState.emplace_atomic_value"
     cfg = CFG(f.node)
     packs = [x for x in walk_no_nested(f.node) if isinstance(x, ast.Call) and call_name(x) ==
-             "pack"]
+             "pack" and isinstance(x.func, ast.Attribute) and ast.unparse(
+                 x.func.value).split(".")[0] == "bitstruct"]
     if len(packs) != 1 or len(packs[0].args) != 2:
         raise AnalysisError("emplace_atomic_value: single bitstruct.pack(fmt, value) not found")
     packed = ast.unparse(packs[0].args[1])
